@@ -144,7 +144,9 @@ func (g *lfGen) vec(depth int) string {
 			if g.c12 {
 				return fmt.Sprintf("max by (%s) (%s)", g.labelList(false), inner)
 			}
-			return fmt.Sprintf(`count_values by (%s) ("v", %s)`, g.labelList(true), inner)
+			// the value label may be __name__ (the aggregation drops the metric name, then stores the value there), and a
+			// string argument may stand in parentheses
+			return fmt.Sprintf(`count_values by (%s) (%s, %s)`, g.labelList(true), hx.Pick(g.rr, []string{`"v"`, `"v"`, `"__name__"`, `("v")`, `(("__name__"))`}), inner)
 		}
 	case 5: // label-preserving functions
 		switch g.rr.Intn(5) {
@@ -165,9 +167,13 @@ func (g *lfGen) vec(depth int) string {
 		}
 		switch g.rr.Intn(6) {
 		case 0:
-			return fmt.Sprintf(`label_replace(%s, "%s", "$1", "%s", "(.*)")`, g.vec(depth-1), hx.Pick(g.rr, []string{"d", "a", "b"}), hx.Pick(g.rr, lfLabels))
+			dst := `"` + hx.Pick(g.rr, []string{"d", "a", "b"}) + `"`
+			if g.rr.Intn(4) == 0 {
+				dst = "(" + dst + ")"
+			}
+			return fmt.Sprintf(`label_replace(%s, %s, "$1", "%s", "(.*)")`, g.vec(depth-1), dst, hx.Pick(g.rr, lfLabels))
 		case 1:
-			return fmt.Sprintf(`label_join(%s, "%s", "-", "a", "b")`, g.vec(depth-1), hx.Pick(g.rr, []string{"d", "c"}))
+			return fmt.Sprintf(`label_join(%s, %s, "-", "a", "b")`, g.vec(depth-1), hx.Pick(g.rr, []string{`"d"`, `"c"`, `("d")`}))
 		case 2:
 			return fmt.Sprintf("absent(%s)", g.selector())
 		case 3:
@@ -382,7 +388,10 @@ func c04Eval(r *hx.Run, cs lfCase) {
 		r.Count("parse-error")
 		return
 	}
-	srcs := utils.LabelsSource(cs.Expr, node)
+	srcs, crashed := lfLabelsSource(r, cs, node)
+	if crashed {
+		return
+	}
 	db := lfBuild(cs.Series, "")
 	res, vals, err := promeval.Instant(db, cs.Expr, lfT0)
 	if err != nil {
@@ -546,7 +555,10 @@ func c12Eval(r *hx.Run, cs lfCase) {
 		r.Count("parse-error")
 		return
 	}
-	srcs := utils.LabelsSource(cs.Expr, node)
+	srcs, crashed := lfLabelsSource(r, cs, node)
+	if crashed {
+		return
+	}
 	var dead []utils.Source
 	for _, s := range srcs {
 		s.WalkSources(func(x utils.Source) {
@@ -674,4 +686,15 @@ func runC12(r *hx.Run, replay string) {
 			c12Eval(r, lfCase{Expr: expr, Series: lfDB(r.Rng, g.leaves, true), Full: true})
 		}
 	}
+}
+
+// the analysis of an expression the PromQL parser accepts must not panic (it runs inside every lint of such a rule)
+func lfLabelsSource(r *hx.Run, cs lfCase, node promParser.Expr) (srcs []utils.Source, crashed bool) {
+	defer func() {
+		if p := recover(); p != nil {
+			crashed = true
+			r.Violate(hx.Violation{Class: "label-source-analysis-panics", Input: cs, Observed: fmt.Sprint(p), Expected: "a list of sources"})
+		}
+	}()
+	return utils.LabelsSource(cs.Expr, node), false
 }
